@@ -49,6 +49,7 @@ ASSUMPTIONS = [
     "compressed names decode byte-identically unless an earlier name in the message has the same suffix in different ASCII case, in which case they are equal as names (RFC 1035/4343 reading, DESIGN §6)",
     "want_shuffle=False; ids/flags/ttl/class/type within their field widths; continue_on_error, xfr, multi and question_only are outside the model",
     "well-formed message: distinct RRset keys per section, singleton types hold one rdata, no empty RRset outside update delete/prerequisite forms (as the library's own constructors guarantee)",
+    "origins are absolute names; 'equal after relativisation' = equal to the original with every section name derelativized and relativized again against the origin (the identity on relative names and on absolute names not at or below the origin); OPT and TSIG owner names are never relativized",
 ]
 
 FIXED_TIME = 1700000000
@@ -1349,22 +1350,33 @@ def replay(ctx: Ctx, obj: dict):
 
 LEVEL = {
     "text": "Lean 4 theorems over an executable model of dns/renderer.py, Rdataset.to_wire, Message.to_wire and _WireReader.read "
-            "(opaque RDATA + explicit NS/CNAME/PTR/MX/SOA shapes): parse_render_partial — for every message with absolute names, any "
-            "opcode but UPDATE, with or without OPT, with or without TSIG (no padding), any number of questions/record sets/records and any "
-            "name-sharing pattern, parsing the rendering returns the message (same id, flags, opcode, rcode incl. extended, EDNS state, TSIG, "
-            "record sets and rdatas in order, no trailing octets) up to the ASCII case of compressed names; update_forms — the same for "
-            "dynamic updates with their delete-rrset/delete-name/delete-rr and present/absent prerequisite forms through the ANY/NONE "
-            "classes, and the API's representation of those forms renders to the same octets as the parser's; counts_exact — the header counts are the records "
-            "rendered (= section_count); compression_sound — in every rendering, with or without truncation, every compression-table entry "
+            "(opaque RDATA + explicit NS/CNAME/PTR/MX/SOA shapes). PROVED: parse_render_partial — for every message with absolute names, any "
+            "opcode but UPDATE, with or without OPT, EDNS padding and TSIG, any number of questions/record sets/records and any "
+            "name-sharing pattern, parsing the rendering returns the message (same id, flags, opcode, rcode incl. extended, EDNS state — with "
+            "padding: the options plus one PADDING option of < block zero octets —, TSIG, record sets and rdatas in order, no trailing octets) "
+            "up to the ASCII case of compressed names; parse_render_exact — under the guard CaseClosed (all names in a suffix-closed set in "
+            "which no two members differ only in ASCII case) the parsed message IS the original (request_payload aside); render_parse_render — "
+            "under the same guard and an explicit max_size, re-rendering the parsed message reproduces the octets; update_forms — "
+            "parse_render for dynamic updates (OPT/TSIG included) for every message whose canonical form (class ANY/NONE read as `deleting`, "
+            "as the parser stores it) is well formed: delete-rrset/delete-name/delete-rr and present/absent prerequisite forms; the only "
+            "excluded forms are those with canonUpdate m ≠ m, i.e. exactly the recorded finding (the UpdateMessage API's own representation), "
+            "for which update_forms_api proves the octets are those of the canonical form; parse_origin_commutes — for EVERY wire, "
+            "from_wire(origin=o) = from_wire() followed by relativisation of the section names, OPT/TSIG owners untouched (4655a6b), same error; "
+            "render_origin_absolutize — rendering with an origin = rendering the derelativized message; parse_render_origin / update_forms_origin — "
+            "render with origin, parse with origin: equal after relativisation (and equal to the original when its names are normal: relative, or "
+            "absolute and not below the origin); counts_exact — the header counts are the records rendered (= section_count); "
+            "compression_sound — in every rendering, with or without truncation, every compression-table entry "
             "(every possible pointer target) lies before the end of the buffer, at most at 0x3FFF, and decodes with the library's own "
             "strictly-backward-pointer decoder to its suffix up to case, and every name written decodes from its own offset to itself; "
-            "rcode/opcode header codecs are exact inverses (complete tables). Padding, origins (relativisation) and byte-identical "
-            "re-rendering are covered by the differential correspondence check (rendered octets, parsed messages, section counts, header "
-            "codecs; model == implementation on every generated case) and by the direct oracle with an independent wire walker.",
+            "rcode/opcode header codecs are exact inverses (complete tables). TIE-ONLY (differential correspondence — rendered octets, parsed "
+            "messages, section counts, header codecs; model == implementation on every generated case — plus the direct oracle with an "
+            "independent wire walker): byte-identical re-rendering WITHOUT the case guard; updates with EDNS padding; one_rr_per_rrset parsing; "
+            "mutated/ill-formed wires (error classification).",
     "note": "Trusted: Lean kernel + propext/Classical.choice/Quot.sound; the statements in lean/Props/C03.lean; the correspondence "
             "harness and its generators; harness/extract_C03.py. RDATA without compressible names is opaque octets; HMAC abstract. "
             "Imports the C01 compression lemma (Proofs/NameCompress.lean: loop_sound).",
-    "technique": "Lean 4 proof (induction over the rendering fold with a compression-table invariant; offset-relative renderer; "
-                 "record-by-record parser simulation) + model-vs-implementation correspondence",
+    "technique": "Lean 4 proof (induction over the rendering fold with a compression-table invariant, parametric in the name relation "
+                 "(up to case / exact under CaseClosed); offset-relative renderer; record-by-record parser simulation; commutation of the "
+                 "parser with relativisation) + model-vs-implementation correspondence",
     "design_ref": "DESIGN.md §7 C03",
 }
